@@ -98,7 +98,7 @@ PROPS = {
         "design_ref": "DESIGN.md §3.10, §4 C07",
     },
     "C18": {
-        "rules": ["SETITER", "SORTEDEMIT", "IDORDER", "REPRLEAK", "GLOBALSTATE"],
+        "rules": ["SETITER", "SORTEDEMIT", "IDORDER", "REPRLEAK", "SYMORDER", "GLOBALSTATE"],
         "thorough": [],
         "technique": "static analysis: set-type inference with function/method/attribute summaries + order-sensitive-consumer rule with triage table; sorted-emission rule; id()/repr()/global-state rules",
         "level_text": "Structural clauses: no value of set type is consumed in an order-sensitive way in the compiler, rewrites, core, API or front end except at triaged "
